@@ -2975,6 +2975,24 @@ pub mod verif {
         return braille_mathml(math, &hook_id);
     }
 
+    /// the per-code clean-up that braille_mathml applies to the raw rule output (after removing ASCII blanks)
+    pub fn cleanup(braille_code: &str, raw_braille: &str) -> String {
+        let pref_manager = PreferenceManager::get();
+        let pref_manager = pref_manager.borrow();
+        let braille_string = raw_braille.replace(' ', "");
+        return match braille_code {
+            "Nemeth" => nemeth_cleanup(braille_string),
+            "UEB" => ueb_cleanup(pref_manager, braille_string),
+            "Vietnam" => vietnam_cleanup(pref_manager, braille_string),
+            "CMU" => cmu_cleanup(pref_manager, braille_string),
+            "Finnish" => finnish_cleanup(pref_manager, braille_string),
+            "Swedish" => swedish_cleanup(pref_manager, braille_string),
+            "LaTeX" => LaTeX_cleanup(pref_manager, braille_string),
+            "ASCIIMath" => ASCIIMath_cleanup(pref_manager, braille_string),
+            _ => braille_string.trim_matches('⠀').to_string(),
+        };
+    }
+
     pub fn highlight_cell(ch: char) -> (bool, char, char) {
         return (is_highlighted(ch), highlight(ch), unhighlight(ch));
     }
